@@ -344,3 +344,59 @@ Lemma witness_order : forall f1 f2 f3, f3 = true ->
   hp f1 f2 f3 w_order_1 0 0 (TAttr 1) = true /\ hp f1 f2 f3 w_order_2 0 0 (TAttr 1) = false
   /\ sp w_order_1 0 0 (TAttr 1) = true /\ sp w_order_2 0 0 (TAttr 1) = true.
 Proof. intros f1 f2 f3 ->. destruct f1, f2; vm_compute; repeat split; reflexivity. Qed.
+
+(* ------------------------------------------------------------------ has_perm as it is in /repo now
+   (the variation points are re-read from pony/orm/core.py on every run, Gen/C34Src.v; if one of them changes back these
+   lemmas - and with them the property theorems - no longer check) *)
+Lemma src_reverse_loop : rev_loop_iterates_reverse_rules = true.
+Proof. reflexivity. Qed.
+Lemma src_object_exclusion : obj_exclusion_tests_entity = true.
+Proof. reflexivity. Qed.
+Lemma src_missing_reverse : missing_reverse_rules_returns_false = false.
+Proof. reflexivity. Qed.
+
+Section Now.
+Variable attr_ent : nat -> nat.
+Variable attr_rev : nat -> option nat.
+Variable attr_hidden : nat -> bool.
+Variable obj_ent : nat -> nat.
+Variable rules : nat -> nat -> list rule.
+Variable ugroups : list nat.
+Variable uroles : nat -> list nat.
+Variable olabels : nat -> list nat.
+
+Notation has_perm_now := (has_perm rev_loop_iterates_reverse_rules obj_exclusion_tests_entity missing_reverse_rules_returns_false
+                            attr_ent attr_rev attr_hidden obj_ent rules ugroups uroles olabels).
+Notation can_view_now := (can_view rev_loop_iterates_reverse_rules obj_exclusion_tests_entity missing_reverse_rules_returns_false
+                            attr_ent attr_rev attr_hidden obj_ent rules ugroups uroles olabels).
+Notation to_json_now := (to_json_objects rev_loop_iterates_reverse_rules obj_exclusion_tests_entity missing_reverse_rules_returns_false
+                            attr_ent attr_rev attr_hidden obj_ent rules ugroups uroles olabels).
+Notation spec_now := (spec attr_ent attr_rev attr_hidden obj_ent rules ugroups uroles olabels).
+
+Theorem has_perm_now_spec : forall p x, has_perm_now p x = true <-> spec_now p x.
+Proof.
+  intros p [e|a|o]; cbn [C34Perm.has_perm C34Perm.spec].
+  - apply entity_spec.
+  - apply attr_spec_if_fixed; [exact src_reverse_loop|exact src_missing_reverse].
+  - apply obj_spec_if_entity_tested. exact src_object_exclusion.
+Qed.
+
+Theorem can_view_now_spec : forall x, can_view_now x = true <-> spec_now VIEW x \/ spec_now EDIT x.
+Proof. intros x. rewrite can_view_iff, !has_perm_now_spec. reflexivity. Qed.
+
+Theorem to_json_now_spec : forall objs l,
+  to_json_now objs = Some l ->
+  l = objs /\ forall o, In o l -> spec_now VIEW (TObj o) \/ spec_now EDIT (TObj o).
+Proof.
+  intros objs l H. destruct (to_json_only_viewable _ _ _ _ _ _ _ _ _ _ _ _ _ H) as [E Hv].
+  split; [exact E|]. intros o Hin. apply can_view_now_spec. apply Hv; exact Hin.
+Qed.
+
+Theorem to_json_now_refuses : forall objs,
+  to_json_now objs = None <-> exists o, In o objs /\ ~ (spec_now VIEW (TObj o) \/ spec_now EDIT (TObj o)).
+Proof.
+  intros objs. rewrite to_json_refuses. split; intros [o [Hin H]]; exists o; (split; [exact Hin|]).
+  - intros Hs. apply can_view_now_spec in Hs. rewrite Hs in H; discriminate.
+  - destruct (can_view_now (TObj o)) eqn:E; [|reflexivity]. exfalso. apply H. apply can_view_now_spec. exact E.
+Qed.
+End Now.
